@@ -47,13 +47,13 @@ def fresh_names(rng, n, taken):
     return out
 
 
-def make_mapping(rng, w, action, kind):
+def make_mapping(rng, w, action, kind, extra_taken=()):
     """-> list of [old, new] pairs in dict insertion order, or None when the kind does not apply to this action"""
     ps = [p for p, _ in action["params"]]
     n = len(ps)
     bound = bound_vars(action["pre"]) | bound_vars(action["eff"])
     consts = [c for c, _ in w.consts]
-    taken = set(ps) | bound | set(consts)
+    taken = set(ps) | bound | set(consts) | set(extra_taken)
     if kind == "identity":
         return [[p, p] for p in ps]
     if kind in ("fresh", "fresh-shuffled-dict", "library-style"):
@@ -294,8 +294,409 @@ def generate(rng, tier):
                 # a mapping that merges two parameters changes the arity of literals: no behaviour to compare
                 cases.append({"domain_text": text, "objects": objs, "action": a["name"], "mapping": m, "kind": kind,
                               "probes": [] if kind in ("collapse", "onto-unrenamed", "onto-constant") else probes, "features": sorted(w.features), "action_features": feats,
-                              "nparams": len(a["params"]), "witness_of": None})
+                              "nparams": len(a["params"]), "witness_of": None,
+                              "gen": {"params": [list(x) for x in a["params"]], "consts": [c for c, _ in w.consts],
+                                      "bound": sorted(bound_vars(a["pre"]) | bound_vars(a["eff"]))}})
     return cases
+
+
+# ---------------------------------------------------------------------------------------------- mirrored operands
+# Actions whose operand SETS (top-level conjunction, nested and/or, forall bodies, when-conditions) and effect SETS hold
+# members that are IMAGES OF EACH OTHER under the renaming that is going to be applied: (m ?a ?b) beside (m ?b ?a) for a
+# swap, (q ?a) beside (q ?b) beside (q ?c) for a rotation or a chain.  The library keeps these members in hash sets keyed
+# by their text, and change_signature changes that text in place: an implementation that renames the members while they
+# sit in the set can lose one (the renamed member equals a sibling that has not been renamed yet).  The probe states
+# separate the two members (one holds, its image does not), so the lost member shows in the behaviour as well as in
+# the text.  Which member is lost depends on the set's iteration order, hence these cases run under several hash seeds.
+MIRROR_KINDS = ["swap", "swap", "permutation", "rotation", "chain", "chain", "overlap"]
+CMP_HEADS = ("<=", ">=", "<", ">")
+NUM_EFFECT_HEADS = ("assign", "increase", "decrease")
+
+
+def image(t, rho):
+    """the tree t under the renaming rho; a quantifier hides its own variable"""
+    if isinstance(t, str):
+        return rho.get(t, t)
+    if t and t[0] == "forall" and len(t) == 3 and isinstance(t[1], list) and t[1]:
+        inner = {k: v for k, v in rho.items() if k != t[1][0]}
+        return ["forall", list(t[1]), image(t[2], inner)]
+    return [image(x, rho) for x in t]
+
+
+def mentions(t, names):
+    if isinstance(t, str):
+        return t in names
+    return any(mentions(x, names) for x in t)
+
+
+def literal_of(t, preds):
+    """(positive, atom) when t is a literal over a declared predicate"""
+    if isinstance(t, list) and t and t[0] == "not" and len(t) == 2 and isinstance(t[1], list) and t[1] and t[1][0] in preds:
+        return False, t[1]
+    if isinstance(t, list) and t and t[0] in preds:
+        return True, t
+    return None
+
+
+class Planter:
+    def __init__(self, rng, w, rho, params, p_image=0.75):
+        self.rng, self.w, self.rho, self.p_image = rng, w, rho, p_image
+        names = {p for p, _ in params}
+        self.out_of_scope = {v for v in rho.values() if v not in names}     # fresh targets: not variables of the action
+        self.preds = {n for n, _ in w.preds}
+        self.pairs = []          # (member, image, [(bound variable, type)...]) for literal members
+        self.where = set()
+
+    def kind_of(self, x):
+        if literal_of(x, self.preds):
+            return "literal"
+        if x[0] in CMP_HEADS or (x[0] == "=" and isinstance(x[1], list)):
+            return "comparison"
+        if x[0] == "=" or (x[0] == "not" and isinstance(x[1], list) and x[1] and x[1][0] == "="):
+            return "eq-pair"
+        if x[0] in ("and", "or", "forall"):
+            return "nested-" + x[0]
+        if x[0] in NUM_EFFECT_HEADS:
+            return "numeric-effect"
+        return None
+
+    def plant_set(self, items, rho, where, bound):
+        """add, beside members of one set, their images under rho (and the images of those: orbits of rotations)"""
+        out = list(items)
+        present = {json.dumps(x) for x in out}
+        k, added = 0, 0
+        while k < len(out) and added < 4:
+            x = out[k]
+            k += 1
+            kind = isinstance(x, list) and x and self.kind_of(x)
+            if not kind:
+                continue
+            img = image(x, rho)
+            if img == x or json.dumps(img) in present or mentions(img, self.out_of_scope):
+                continue
+            lit = literal_of(img, self.preds)
+            if lit and json.dumps(["not", lit[1]] if lit[0] else lit[1]) in present:
+                continue                              # the image would contradict a sibling
+            if self.rng.random() >= self.p_image:
+                continue
+            out.append(img)
+            present.add(json.dumps(img))
+            added += 1
+            self.where.add("mirror:%s:%s" % (where, kind))
+            if kind == "literal":
+                self.pairs.append((x, img, list(bound), where))
+        return out, added
+
+    def fresh_pair(self, scope, rho, present):
+        """a literal that the renaming moves, not yet in the set"""
+        for _ in range(10):
+            a = G.gen_atom(self.rng, self.w, scope)
+            if a is None:
+                return None
+            img = image(a, rho)
+            if img == a or mentions(img, self.out_of_scope):
+                continue
+            if any(json.dumps(y) in present for y in (a, img, ["not", a], ["not", img])):
+                continue
+            return a if self.rng.random() < 0.65 else ["not", a]
+        return None
+
+    def condition(self, t, rho, scope, where, bound, p_fresh):
+        """t = [and|or, members...] -> the same with images planted at every level"""
+        kids = []
+        for k in t[1:]:
+            if isinstance(k, list) and k and k[0] in ("and", "or"):
+                k = self.condition(k, rho, scope, where + "/nested", bound, p_fresh * 0.6)
+            elif isinstance(k, list) and k and k[0] == "forall" and len(k) == 3:
+                v, ty = k[1][0], k[1][2]
+                inner = {a: b for a, b in rho.items() if a != v}
+                k = ["forall", list(k[1]), self.condition(k[2], inner, scope + [(v, ty)], where + "/forall-body",
+                                                          bound + [(v, ty)], p_fresh * 0.6)]
+            kids.append(k)
+        if self.rng.random() < p_fresh:
+            lit = self.fresh_pair(scope, rho, {json.dumps(x) for x in kids})
+            if lit:
+                kids.append(lit)
+        kids, _ = self.plant_set(kids, rho, where, bound)
+        return [t[0]] + kids
+
+    def effect_set(self, items, rho, scope, where, bound, budget_ok, p_fresh):
+        prims = [x for x in items if isinstance(x, list) and x and (literal_of(x, self.preds) or x[0] in NUM_EFFECT_HEADS)]
+        rest = [x for x in items if x not in prims]
+        if self.rng.random() < p_fresh:
+            lit = self.fresh_pair(scope, rho, {json.dumps(x) for x in prims})
+            if lit and budget_ok(lit):
+                prims.append(lit)
+        prims, _ = self.plant_set(prims, rho, where, bound)
+        return prims + rest
+
+
+def as_conj(t):
+    if isinstance(t, list) and t and t[0] == "and":
+        return t
+    return ["and"] + ([t] if t else [])
+
+
+def polarity_table(eff):
+    """predicate name -> set of polarities used anywhere in the effect (so that a planted literal keeps the groups
+    consistent: never an add of a predicate that some group deletes)"""
+    tab = {}
+
+    def walk(t, in_cond):
+        if not isinstance(t, list) or not t:
+            return
+        if t[0] == "when":
+            walk(t[2], False)
+            return
+        if t[0] in ("and", "forall"):
+            for x in t[1:]:
+                walk(x, in_cond)
+            return
+        if t[0] == "not" and isinstance(t[1], list):
+            tab.setdefault(t[1][0], set()).add(False)
+            return
+        if t[0] not in NUM_EFFECT_HEADS and not t[0].startswith("?"):
+            tab.setdefault(t[0], set()).add(True)
+    walk(eff, False)
+    return tab
+
+
+def plant_mirrors(rng, w, a, rho):
+    """-> the planter (its pairs and places); a['pre'] and a['eff'] are replaced"""
+    pl = Planter(rng, w, rho, a["params"])
+    scope = list(a["params"])
+    a["pre"] = pl.condition(as_conj(a["pre"]), rho, scope, "pre", [], 0.9)
+    pol = polarity_table(a["eff"])
+
+    def budget_ok(lit):
+        pos, atom = literal_of(lit, pl.preds)
+        return pol.setdefault(atom[0], {pos}) == {pos}
+    items = []
+    for e in as_conj(a["eff"])[1:]:
+        if isinstance(e, list) and e and e[0] == "when":
+            cond = pl.condition(as_conj(e[1]), rho, scope, "when-cond", [], 0.6)
+            res = ["and"] + pl.effect_set(as_conj(e[2])[1:], rho, scope, "when-effect", [], budget_ok, 0.3)
+            e = ["when", cond, res]
+        elif isinstance(e, list) and e and e[0] == "forall" and len(e) == 3 and e[2][0] == "when":
+            v, ty = e[1][0], e[1][2]
+            inner = {x: y for x, y in rho.items() if x != v}
+            sc = scope + [(v, ty)]
+            cond = pl.condition(as_conj(e[2][1]), inner, sc, "forall-when-cond", [(v, ty)], 0.5)
+            res = ["and"] + pl.effect_set(as_conj(e[2][2])[1:], inner, sc, "forall-when-effect", [(v, ty)], budget_ok, 0.2)
+            e = ["forall", list(e[1]), ["when", cond, res]]
+        items.append(e)
+    items = pl.effect_set(items, rho, scope, "effect", [], budget_ok, 0.6)
+    # a whole conditional effect beside its image (literal effects only: two groups must not write one function)
+    for e in list(items):
+        if isinstance(e, list) and e and e[0] == "when" and all(literal_of(x, pl.preds) for x in e[2][1:]) and rng.random() < 0.3:
+            img = image(e, rho)
+            if img != e and not mentions(img, pl.out_of_scope):
+                items.append(img)
+                pl.where.add("mirror:effect:when")
+    rng.shuffle(items)
+    a["eff"] = ["and"] + items
+    return pl
+
+
+def mirror_world(rng):
+    """a world whose action has >= 2 parameters of ONE type (so that the image of a member under a renaming of these
+    parameters is again type-correct), with a binary and a unary predicate and a function over that type, and - for the
+    quantifiers - a constant of that type (constants are quantified over since D30)"""
+    w = G.World()
+    G.gen_types(rng, w, max_types=3)
+    G.gen_vocab(rng, w)
+    ty = rng.choice(w.all_types())
+    sup = lambda: rng.choice(w.ancestors(ty))
+    w.preds.append(("m0", [("?a0", sup()), ("?a1", sup())]))
+    w.preds.append(("m1", [("?a0", sup())]))
+    if rng.random() < 0.7:
+        w.funcs.append(("g0", [("?a0", sup())]))
+    subs = [t for t in w.all_types() if w.is_sub(t, ty)]
+    if rng.random() < 0.6:
+        w.consts.append(("k0", rng.choice(subs)))
+    n = rng.choice([2, 2, 3, 3])
+    params = [("?x%d" % k, ty) for k in range(n)]
+    if rng.random() < 0.3:
+        params.insert(rng.randint(0, n), ("?y0", rng.choice(w.all_types())))
+    simple = rng.random() < 0.4
+    if simple:
+        # conjunctions of literals only: the probe states can be built to satisfy all but one member
+        def lits(k):
+            out = []
+            for _ in range(k):
+                at = G.gen_atom(rng, w, list(params))
+                if at and all(json.dumps(x) not in {json.dumps(y) for y in out} for x in (at, ["not", at])):
+                    out.append(at if rng.random() < 0.7 else ["not", at])
+            return out
+        pre = ["and"] + lits(rng.randint(0, 2))
+        budget = G.EffectBudget()
+        eff = ["and"] + [x for x in G.gen_prims(rng, w, list(params), budget, 0) if literal_of(x, {n for n, _ in w.preds})]
+        if rng.random() < 0.7:
+            prims = [x for x in G.gen_prims(rng, w, list(params), budget, 1) if literal_of(x, {n for n, _ in w.preds})]
+            if prims:
+                eff.append(["when", ["and"] + lits(rng.randint(1, 2)), ["and"] + prims])
+    else:
+        pre = as_conj(G.gen_precondition(rng, w, params))
+        if rng.random() < 0.5:
+            v = "?q2"
+            body = [x for x in (G.gen_form(rng, w, list(params) + [(v, ty)], 0, True, True) for _ in range(rng.randint(1, 2))) if x]
+            if body:
+                pre.append(["forall", [v, "-", ty], [rng.choice(["and", "or"])] + body])
+                w.features.add("forall-pre")
+        eff = G.gen_effect(rng, w, params)
+    a = {"name": "act0", "params": params, "group": False, "pre": pre, "eff": eff}
+    w.actions.append(a)
+    return w, a, ty, simple
+
+
+def ground(atom, binding):
+    return [atom[0], [binding.get(x, x) for x in atom[1:]]]
+
+
+def with_fact(state, fact, present):
+    facts = [f for f in state["facts"] if [f[0], list(f[1])] != fact]
+    if present:
+        facts.append((fact[0], list(fact[1])))
+    return {"facts": facts, "fluents": state["fluents"]}
+
+
+def mirror_cases(rng, tier):
+    n_worlds = {"quick": 26, "thorough": 150}[tier]
+    cases = []
+    while n_worlds > 0:
+        w, a, ty, simple = mirror_world(rng)
+        group = [(p, t) for p, t in a["params"] if p.startswith("?x")]
+        others = [p for p, _ in a["params"] if not p.startswith("?x")]
+        kind = rng.choice(MIRROR_KINDS)
+        m = make_mapping(rng, w, {"params": group, "pre": a["pre"], "eff": a["eff"]}, kind, extra_taken=others)
+        if m is None:
+            continue
+        n_worlds -= 1
+        rho = {o: n for o, n in m}
+        pl = plant_mirrors(rng, w, a, rho)
+        preds = pl.preds
+        # objects: at least two of the parameters' type (or below), so that calls with distinct arguments exist
+        subs = [t for t in w.all_types() if w.is_sub(t, ty)]
+        objs = [("o%d" % i, rng.choice(subs)) for i in range(rng.randint(2, 3))]
+        if rng.random() < 0.4:
+            objs.append(("o%d" % len(objs), rng.choice(w.all_types())))
+        text = G.render(w.domain_tree("dom"), rng, noise=rng.random() < 0.2)
+        universe = list(objs) + list(w.consts)
+        calls = G.calls_for(rng, w, objs, a, limit=40)
+        calls.sort(key=lambda c: -len(set(c)))                   # distinct arguments first (stable: random within)
+        calls = calls[:2]
+        probes = []
+        for args in calls:
+            binding = dict(zip([p for p, _ in a["params"]], args))
+            base = G.gen_state(rng, w, objs, density=rng.choice([0.5, 0.8]))
+            if simple:
+                # make every literal of the precondition (and of the first when-condition) true
+                conds = list(a["pre"][1:])
+                for e in a["eff"][1:]:
+                    if e[0] == "when" and rng.random() < 0.7:
+                        conds += e[1][1:]
+                for c in conds:
+                    lit = literal_of(c, preds)
+                    if lit and not mentions(lit[1], {"?q2", "?u"}):
+                        base = with_fact(base, ground(lit[1], binding), lit[0])
+            states = [base]
+            pairs = list(pl.pairs)
+            rng.shuffle(pairs)
+            for x, img, bound, _ in pairs[:2]:
+                b = dict(binding)
+                for v, vt in bound:
+                    pool = [o for o, t in universe if w.is_sub(t, vt)]
+                    if pool:
+                        b[v] = rng.choice(pool)
+                pos, atom = literal_of(x, preds)
+                g0, g1 = ground(atom, b), ground(literal_of(img, preds)[1], b)
+                if g0 == g1 or any(s.startswith("?") for s in g0[1] + g1[1]):
+                    continue
+                # one member holds, its image does not - and the other way round
+                states.append(with_fact(with_fact(base, g0, pos), g1, not pos))
+                states.append(with_fact(with_fact(base, g0, not pos), g1, pos))
+            for st in states[:5]:
+                probes.append({"args": args, "state": st, "problem_text": G.problem_text(w, objs, st, domain="dom")})
+        feats = action_features(a) + (["constant"] if uses_constant(w, a) else []) + sorted(pl.where) + \
+            (["mirror-simple"] if simple else []) + \
+            (["constant-of-quantified-type"] if quantified_constant(w, a) else [])
+        maps = [(kind, m)]
+        # the same action under fresh names: nothing may be lost there either
+        maps.append(("fresh", make_mapping(rng, w, a, "fresh")))
+        for k2, m2 in maps:
+            cases.append({"domain_text": text, "objects": objs, "action": a["name"], "mapping": m2, "kind": k2,
+                          "probes": probes, "features": sorted(w.features) + ["mirror"], "action_features": feats,
+                          "nparams": len(a["params"]), "witness_of": None, "mirror": k2 != "fresh",
+                          "gen": {"params": [list(x) for x in a["params"]], "consts": [c for c, _ in w.consts],
+                                  "bound": sorted(bound_vars(a["pre"]) | bound_vars(a["eff"]))}})
+    return cases
+
+
+# ---------------------------------------------------------------------------------------------- several calls in a row
+SEQUENCE_KINDS = ["roundtrip", "twice", "then", "there-and-back-and-on"]
+
+
+def turned(m):
+    return [[new, old] for old, new in m if old != new]
+
+
+def sequence_cases(rng, base_cases, n):
+    """change_signature called several times on the same action: a mapping and then its inverse (back to the original
+    action), the same mapping twice (a swap twice is the identity, a rotation twice another rotation, a chain twice
+    collapses - decided inside Coq), a second mapping chosen for the action as renamed by the first"""
+    pool = [c for c in base_cases if c.get("gen") and c["kind"] in ADMISSIBLE_KINDS and c["kind"] != "identity"
+            and len(c["gen"]["params"]) >= 1]
+    rng.shuffle(pool)
+    out = []
+    for c in pool:
+        if len(out) >= n:
+            break
+        g = c["gen"]
+        m = c["mapping"]
+        rho = {o: nw for o, nw in m}
+        how = rng.choice(SEQUENCE_KINDS)
+        renamed = {"params": [(rho.get(p, p), t) for p, t in g["params"]], "pre": [["forall", [b]] for b in g["bound"]], "eff": []}
+        w = FixtureWorld(g["consts"])
+        if how == "roundtrip":
+            back = turned(m)
+            rng.shuffle(back)
+            more = [back]
+        elif how == "twice":
+            more = [m] + ([m] if rng.random() < 0.3 else [])
+        elif how == "then":
+            m2 = make_mapping(rng, w, renamed, rng.choice([k for k in ADMISSIBLE_KINDS if k != "identity"]))
+            if m2 is None:
+                continue
+            more = [m2]
+        else:
+            m2 = make_mapping(rng, w, {"params": g["params"], "pre": renamed["pre"], "eff": []},
+                              rng.choice(["swap", "rotation", "chain", "fresh", "overlap"]))
+            if m2 is None:
+                continue
+            more = [turned(m), m2]
+        if not any(more):
+            continue
+        d = dict(c)
+        d.update({"more": more, "kind": "%s:%s" % (how, c["kind"]), "witness_of": None, "mirror": False,
+                  "action_features": c["action_features"] + ["sequence:" + how]})
+        out.append(d)
+    return out
+
+
+def quantified_constant(w, a):
+    """the domain declares a constant whose type conforms to the type of a quantifier of the action (D30: constants are
+    quantified over)"""
+    tys = set()
+
+    def walk(t):
+        if isinstance(t, list):
+            if t and t[0] == "forall" and len(t) == 3 and isinstance(t[1], list) and len(t[1]) == 3:
+                tys.add(t[1][2])
+            for x in t:
+                walk(x)
+    walk(a["pre"])
+    walk(a["eff"])
+    return any(w.is_sub(ct, t) for _, ct in w.consts for t in tys)
 
 
 # ---------------------------------------------------------------------------------------------- shipped fixtures
@@ -436,9 +837,10 @@ def case_literal(c, res, eps_hex):
             probes.append("{| q_args := %s; q_state := %s; q_app0 := %s; q_succ0 := %s; q_app1 := %s; q_succ1 := %s |}" % (
                 clist([cstr(a) for a in pr["args"]]), cstate(pr["state"]), cobs_bool(o["app"]), cobs_state(o["succ"]),
                 cobs_bool(n["app"]), cobs_state(n["succ"])))
-    lit = ("{| r_text := %s; r_nums := %s; r_eps := %s; r_objs := %s; r_action := %s; r_map := %s; r_sig := %s; "
+    lit = ("{| r_text := %s; r_nums := %s; r_eps := %s; r_objs := %s; r_action := %s; r_map := %s; r_more := %s; r_sig := %s; "
            "r_print0 := %s; r_print1 := %s; r_probes := %s |}") % (
-        cstr(c["domain_text"]), nums, chex(float.fromhex(eps_hex)), objs, cstr(c["action"]), cpairs(c["mapping"]), sig,
+        cstr(c["domain_text"]), nums, chex(float.fromhex(eps_hex)), objs, cstr(c["action"]), cpairs(c["mapping"]),
+        clist([cpairs(m) for m in c.get("more", [])]), sig,
         cstr(res.get("print0", "")), print1, clist(probes))
     return lit, 2 + 2 * len(probes), len(probes)
 
@@ -457,8 +859,15 @@ def run(args):
     else:
         fx, fx_skipped = fixture_cases(rng, args.tier)
         cases = corpus_cases() + handwritten_cases() + fx + generate(rng, args.tier) + exhaustive_cases(rng, {"quick": 2, "thorough": 30}[args.tier])
+        cases += mirror_cases(rng, args.tier)
+        cases += sequence_cases(rng, cases, {"quick": 36, "thorough": 200}[args.tier])
     cfg = run_impl([{"op": "core.numeric_config"}], nproc=1)[0]
     hashseeds = [0] if args.tier == "quick" else [0, 1]
+    # the cases with mirrored set members run under further hash seeds (which member a set-walking renaming meets first -
+    # and so whether one is lost - depends on the iteration order of the hash sets)
+    mirror_hashseeds = [1, 2] if args.tier == "quick" else [2, 3, 4]
+    if args.replay:
+        hashseeds, mirror_hashseeds = [int(data["input"].get("hashseed", 0))], []
     all_units, all_verdicts = [], ""
     info_total = {"shards": 0, "shard_errors": [], "cmd": ""}
     stats = {"cases": 0, "kinds": {}, "admissible_kinds": 0, "foreign_kinds": 0, "nparams": {}, "probes": 0,
@@ -466,8 +875,15 @@ def run(args):
              "change_signature_raised": 0, "domain_rejected": 0, "action_features": {}, "world_features": {},
              "mapping_mutated_by_call": 0, "moved_parameters": {}}
     timing = {"impl_s": 0.0, "coq_s": 0.0}
-    for hs in hashseeds:
+    all_cases = cases
+    seen_lits = set()
+    stats["same_observation_under_another_hash_seed"] = 0
+    for hs in hashseeds + mirror_hashseeds:
+        cases = all_cases if hs in hashseeds else [c for c in all_cases if c.get("mirror")]
+        if not cases:
+            continue
         jobs = [{"op": "c18.rename", "domain_text": c["domain_text"], "action": c["action"], "mapping": c["mapping"],
+                 "more": c.get("more", []),
                  "probes": [{"args": p["args"], "problem_text": p["problem_text"]} for p in c["probes"]]} for c in cases]
         t_impl = time.time()
         results = run_impl(jobs, hashseed=hs)
@@ -479,6 +895,11 @@ def run(args):
                     stats["domain_rejected"] += 1
                 continue
             lit, u, nprobes = case_literal(c, res, cfg["epsilon"])
+            if lit in seen_lits:
+                # a further hash seed that changed nothing observable: the verdicts would be those already recorded
+                stats["same_observation_under_another_hash_seed"] += 1
+                continue
+            seen_lits.add(lit)
             lits.append(lit)
             units.append(u)
             kept.append((c, res, nprobes))
@@ -494,8 +915,8 @@ def run(args):
             chunk = verdicts[pos:pos + u]
             pos += u
             moved = sum(1 for o, n in c["mapping"] if o != n)
-            base = {"case": {k: c[k] for k in ("domain_text", "objects", "action", "mapping", "kind", "probes",
-                                               "features", "action_features")},
+            base = {"case": dict({k: c[k] for k in ("domain_text", "objects", "action", "mapping", "kind", "probes",
+                                                    "features", "action_features")}, more=c.get("more", [])),
                     "hashseed": hs,
                     "implementation": {k: res.get(k) for k in ("renamed", "sig", "print0", "print1", "same_object")}}
             for k, ch in enumerate(chunk):
@@ -505,14 +926,16 @@ def run(args):
                     pi = (k - 2) // 2
                     inp["probe_index"] = pi
                     inp["probe_result"] = res["probes"][pi] if pi < len(res["probes"]) else None
-                nontrivial = moved > 0 and c["kind"] in JUDGED_KINDS and bool(c["action_features"] or c["features"]) \
+                nontrivial = moved > 0 and c["kind"].split(":")[-1] in JUDGED_KINDS and bool(c["action_features"] or c["features"]) \
                     and (k < 2 or len(c["probes"][min((k - 2) // 2, len(c["probes"]) - 1)]["state"]["facts"]) > 0)
                 all_units.append({"lit": lit, "input": inp, "nontrivial": nontrivial, "witness_of": c.get("witness_of")})
             all_verdicts += chunk
             if hs == hashseeds[0]:
                 stats["cases"] += 1
                 stats["kinds"][c["kind"]] = stats["kinds"].get(c["kind"], 0) + 1
-                stats["admissible_kinds" if c["kind"] in JUDGED_KINDS else "foreign_kinds"] += 1
+                stats["admissible_kinds" if c["kind"].split(":")[-1] in JUDGED_KINDS else "foreign_kinds"] += 1
+                if c.get("more"):
+                    stats["several_calls"] = stats.get("several_calls", 0) + 1
                 stats["nparams"][str(c.get("nparams", "?"))] = stats["nparams"].get(str(c.get("nparams", "?")), 0) + 1
                 stats["moved_parameters"][str(moved)] = stats["moved_parameters"].get(str(moved), 0) + 1
                 for f in c["action_features"]:
@@ -540,6 +963,8 @@ def run(args):
     cov = rep.coverage
     cov["input_distribution"] = stats
     cov["hash_seeds"] = hashseeds
+    cov["hash_seeds_mirrored_cases"] = hashseeds + mirror_hashseeds
+    cases = all_cases
     stats["fixture_files"] = sorted({f[len("fixture:"):] for c in cases for f in c["features"] if f.startswith("fixture:")})
     stats["fixture_files_skipped"] = fx_skipped
     cov["timing"] = {k: round(v, 1) for k, v in timing.items()}
